@@ -111,6 +111,17 @@ func (g *TxGen) view() *View { return g.h.View }
 // Rng exposes the generator's PRNG to check-specific extensions.
 func (g *TxGen) Rng() *rand.Rand { return g.rng }
 
+// CarrierTx builds an ordinary, correctly signed transaction of some user account with the given
+// method and body (used by check-specific attacks that need to get a payload executed by a handler).
+func (g *TxGen) CarrierTx(method transaction.MethodName, body any) *GenTx {
+	a := g.h.Sc.Users[g.rng.IntN(len(g.h.Sc.Users))]
+	tx := transaction.NewTransaction(g.nonce(a), g.feeSure(8000), method, body)
+	gt := g.finish(a, tx, "carrier")
+	gt.Intent = "post:carrier"
+	g.bump(a)
+	return gt
+}
+
 // History returns the history the generator belongs to.
 func (g *TxGen) History() *History { return g.h }
 
@@ -203,6 +214,10 @@ func (g *TxGen) fee(opCost uint64) *transaction.Fee {
 		// Without a minimum gas price any amount is acceptable: tiny fees exercise the
 		// rounding of the fee split (shares that round to zero, remainders).
 		_ = f.Amount.FromUint64(uint64(1 + g.rng.IntN(24)))
+	}
+	if g.h.Sc.P.MinGasPrice > 0 && g.rng.IntN(8) == 0 {
+		// Below the consensus minimum gas price: rejected by every node alike, whoever signed it.
+		_ = f.Amount.FromUint64(0)
 	}
 	if g.rng.IntN(25) == 0 {
 		return nil // no fee at all
@@ -885,6 +900,10 @@ func (g *TxGen) Next(height int64) []*GenTx {
 	if len(out) > 2 && g.rng.IntN(6) == 0 {
 		i, j := g.rng.IntN(len(out)), g.rng.IntN(len(out))
 		out[i], out[j] = out[j], out[i]
+	}
+	// While the runtime is suspended, descriptor updates (by the owner and by others) are frequent.
+	if g.h.Sc.Runtime != nil && g.rng.IntN(3) == 0 && g.runtimeSuspended() {
+		add(g.mkRegisterRuntime())
 	}
 	// Debonding storm: every delegator of one escrow account (the account itself included)
 	// reclaims in the same block, so several debonding delegations of one pool complete in the
